@@ -241,3 +241,76 @@ Proof.
     exists cps. split; [exact (decode_utf16_scalar _ us cps (Nat.le_refl _) B E) | exact (decode_utf16_complete _ us cps (Nat.le_refl _) B E)].
   - intros [cps [S ->]]. eexists. apply from_utf16_roundtrip. exact S.
 Qed.
+
+(* ---------- every well-formed character is the encoding of exactly one scalar value ---------- *)
+Ltac split_if H := match type of H with context [if ?c then _ else _] => destruct c eqn:? end.
+
+Theorem encode_decode ch cp : wf_char ch -> decode ch = Some cp -> scalar cp = true /\ encode cp = ch.
+Proof.
+  unfold wf_char. intros W D. unfold decode in D. rewrite W in D.
+  destruct ch as [|b0 [|b1 [|b2 [|b3 [|b4 r]]]]]; cbn [length] in D; try discriminate.
+  - (* one byte *)
+    injection D as <-. cbn [char_len length] in W. split_if W; [|repeat (split_if W; try discriminate)].
+    split; [apply scalar_spec; lia | unfold encode; rewrite Heqb; reflexivity].
+  - (* two bytes *)
+    injection D as <-. cbn [char_len length] in W.
+    split_if W; [discriminate|]. split_if W; [|repeat (split_if W; try discriminate)].
+    split_if W; [|discriminate]. cbv [in_range is_cont] in *.
+    split; [apply scalar_spec; lia|]. unfold encode.
+    replace ((b0 - 192) * 64 + (b1 - 128) <? 128) with false by lia.
+    replace ((b0 - 192) * 64 + (b1 - 128) <? 2048) with true by lia.
+    f_equal; [lia|]. f_equal. lia.
+  - (* three bytes *)
+    injection D as <-. cbn [char_len length] in W.
+    split_if W; [discriminate|]. split_if W; [split_if W; discriminate|].
+    split_if W; [|repeat (split_if W; try discriminate)].
+    split_if W; [|discriminate]. cbv [in_range is_cont] in *.
+    split; [apply scalar_spec; lia|]. unfold encode.
+    replace ((b0 - 224) * 4096 + (b1 - 128) * 64 + (b2 - 128) <? 128) with false by lia.
+    replace ((b0 - 224) * 4096 + (b1 - 128) * 64 + (b2 - 128) <? 2048) with false by lia.
+    replace ((b0 - 224) * 4096 + (b1 - 128) * 64 + (b2 - 128) <? 65536) with true by lia.
+    f_equal; [lia|]. f_equal; [lia|]. f_equal. lia.
+  - (* four bytes *)
+    injection D as <-. cbn [char_len length] in W.
+    split_if W; [discriminate|]. split_if W; [split_if W; discriminate|].
+    split_if W; [split_if W; discriminate|].
+    split_if W; [|discriminate].
+    split_if W; [|discriminate]. cbv [in_range is_cont] in *.
+    split; [apply scalar_spec; lia|]. unfold encode.
+    replace ((b0 - 240) * 262144 + (b1 - 128) * 4096 + (b2 - 128) * 64 + (b3 - 128) <? 128) with false by lia.
+    replace ((b0 - 240) * 262144 + (b1 - 128) * 4096 + (b2 - 128) * 64 + (b3 - 128) <? 2048) with false by lia.
+    replace ((b0 - 240) * 262144 + (b1 - 128) * 4096 + (b2 - 128) * 64 + (b3 - 128) <? 65536) with false by lia.
+    f_equal; [lia|]. f_equal; [lia|]. f_equal; [lia|]. f_equal. lia.
+Qed.
+
+(* ---------- extend / push_str ---------- *)
+Lemma s_extend_spec : forall cps s, s_extend s cps = s ++ concat (map encode cps).
+Proof.
+  induction cps as [|cp r IH]; intros s; cbn [s_extend fold_left map concat].
+  - rewrite app_nil_r. reflexivity.
+  - fold (s_extend (s_push s cp) r). rewrite IH. unfold s_push. rewrite <- app_assoc. reflexivity.
+Qed.
+
+Theorem s_extend_valid s cps : Valid s -> Forall (fun cp => scalar cp = true) cps -> Valid (s_extend s cps).
+Proof.
+  intros V F. rewrite s_extend_spec. apply Valid_app; [exact V|].
+  induction F as [|cp r S _ IH]; cbn [map concat]; [constructor|].
+  apply Valid_app; [apply Valid_single, encode_wf; exact S | exact IH].
+Qed.
+
+(* extending by the characters of a valid text appends that text *)
+Theorem s_extend_chars s t cps : Valid t -> map decode (chars t) = map Some cps ->
+  Forall (fun cp => scalar cp = true) cps -> s_extend s cps = s ++ t.
+Proof.
+  intros V D F. rewrite s_extend_spec. f_equal.
+  destruct (chars_spec t V) as [C W]. transitivity (concat (chars t)); [f_equal | exact C].
+  clear C V. revert cps D F. generalize dependent (chars t). intros l W.
+  induction W as [|ch r Wc _ IH]; intros cps D F.
+  - destruct cps; [reflexivity | discriminate].
+  - destruct cps as [|cp cr]; [discriminate|]. cbn [map] in *. injection D as D1 D2.
+    inversion F as [|? ? S Fr]; subst. f_equal; [|apply IH; assumption].
+    destruct (encode_decode ch cp Wc D1) as [_ E]. exact E.
+Qed.
+
+Theorem s_push_str_valid s t : Valid s -> Valid t -> Valid (s_push_str s t).
+Proof. intros; apply Valid_app; assumption. Qed.
